@@ -1,6 +1,7 @@
 """C19 Tree navigation API agrees with a set-based model of the tree."""
 from .. import model, sweep
 from ..runner import Result, scratch
+from ..bridge import build_any
 from ..bridge import T, build, quiet, build_via_export, build_via_tiger, perturb, extract, raw_leaves, monitor
 from .c11 import ref_delete
 
@@ -8,7 +9,7 @@ ID = 'C19'
 LEVEL = 'exploration'
 TECHNIQUE = 'bounded exhaustive enumeration of tree shapes x child-list orders, set-model oracle'
 
-ORDERS = [None, 'rev', 1, 'export', 'tiger']
+ORDERS = [None, 'rev', 1, 'export', 'tiger', 'written']
 
 
 def plan(tier, seed):
@@ -119,6 +120,8 @@ def check_tree(mt_json, order):
             t = build_via_export(mt, scratch())
         elif order == 'tiger':
             t = build_via_tiger(mt, scratch())
+        elif order == 'written':
+            t = build_any(mt, 'written')
         else:
             t = build(mt, child_order=order)
         compare_live(t, mt, case, out, 'fresh tree')
@@ -229,6 +232,25 @@ def compare_live(t, mt, case, out, phase):
     exp_lv = {l: sorted(ps) for l, ps in exp_lv.items()}
     if got_lv != exp_lv:
         bad('levels', exp_lv, got_lv)
+    # levels from every node: the tables describe the subtree of that node only
+    for path, x in by_path.items():
+        lv_x, rev_x = T.levels(x)
+        exp_x = {p: ref.level(p) for p in ref.node if ref.kids[p] and p[:len(path)] == path}
+        got_x = {P(n_): l for n_, l in rev_x.items()}
+        if got_x != exp_x:
+            bad('levels(node).reverse', exp_x, got_x)
+            break
+    # the lists handed out are the caller's: changing them must not change the tree
+    for path, x in by_path.items():
+        ks = T.children(x)
+        if ks is x.children:
+            bad('children() returns the node\'s own list', 'a new list', 'the internal list of %r' % (path,))
+            break
+        del ks[:]
+        if [P(c) for c in T.children(x)] != [path + (i,) for i in range(len(ref.kids[path]))] and \
+                sorted(P(c) for c in T.children(x)) != sorted(path + (i,) for i in range(len(ref.kids[path]))):
+            bad('children() after the caller emptied an earlier result', len(ref.kids[path]), len(T.children(x)))
+            break
     # export numbering (mutates num of constituents only)
     from trees import treeoutput
     treeoutput.compute_export_numbering(t)
